@@ -732,9 +732,11 @@ func Run(p *Prop, tier string, seed int, self string) int {
 	if v, err := strconv.Atoi(os.Getenv("VERIF_WORKERS")); err == nil && 0 < v {
 		r.NWorkers = v
 	}
-	r.Budget = 100 * time.Second
+	// wall budget of the BFS phase: only ever reached on a machine that is busy with other work (the quick BFS of every
+	// property ends within 40 s on 16 idle cores); a run stopped by it says so and is not called exhaustive
+	r.Budget = 300 * time.Second
 	if tier == Thorough {
-		r.Budget = 15 * time.Minute
+		r.Budget = 30 * time.Minute
 	}
 	if v, err := strconv.Atoi(os.Getenv("VERIF_BUDGET_S")); err == nil && 0 < v {
 		r.Budget = time.Duration(v) * time.Second
